@@ -292,8 +292,8 @@ def _lags_r(spec, lags):
 
 
 def _h_of(spec, r):
-    """exact non-dimensional lag (python float via exact rational arithmetic is not
-    needed here: only used for classification)."""
+    """Non-dimensional lag as a double (classification and messages only; the
+    oracle forms it exactly from r, rescale and len_scale in mpmath)."""
     return np.abs(r) * _eff_rescale(spec) / spec["len_scale"]
 
 
@@ -331,6 +331,16 @@ def _labels(rec, spec):
         rec.label("rescale_given")
     if spec.get("nugget", 0.0) > 0:
         rec.label("nugget>0")
+
+
+def _lag_labels(rec, spec, lags):
+    if _near_boundary(spec, lags):
+        rec.label("lag_within_4ulp_of_boundary")
+    vals = [abs(v) for u, v in lags if u == "h"]
+    if any(0 < v < 1e-12 for v in vals):
+        rec.label("lag_below_1e-12")
+    if any(v >= 1e4 for v in vals):
+        rec.label("lag_far_tail")
 
 
 # ---------------------------------------------------------------------------
@@ -458,6 +468,7 @@ def check_closed(case, rec):
     sill = var + nugget
     r = _lags_r(spec, case["lags"])
     rec.nontrivial(_nontrivial_lags(spec, case["lags"]))
+    _lag_labels(rec, spec, case["lags"])
 
     # parameter regions of registered findings: the whole comparison is void
     if _order_near_integer(spec):
@@ -626,6 +637,7 @@ def check_ident(case, rec):
     tol = 1e-12 * sill
     r_all = _lags_r(spec, case["lags"])
     rec.nontrivial(_nontrivial_lags(spec, case["lags"]))
+    _lag_labels(rec, spec, case["lags"])
     # lags where the library returns NaN / 0 by a registered finding are
     # dropped from the finiteness requirement (and counted)
     keep = []
@@ -1348,7 +1360,7 @@ SUBS = [
         "integral_scale",
         gen_intscale,
         check_intscale,
-        quick=200,
+        quick=160,
         thorough=4000,
         shards_quick=4,
         shards_thorough=8,
